@@ -1,13 +1,24 @@
 //! One module per claimed property: generator + oracle.
 
+pub mod c02;
+pub mod c03;
+pub mod c04;
+pub mod c05;
+pub mod c06;
 pub mod c07;
+pub mod c08;
+pub mod c09;
+pub mod c11;
+pub mod c17;
+pub mod c18;
 pub mod c19;
 pub mod common;
+pub mod hist;
 
 use crate::family::Family;
 
 pub fn all() -> Vec<&'static dyn Family> {
-    vec![&c07::C07, &c19::C19]
+    vec![&c02::C02, &c03::C03, &c04::C04, &c05::C05, &c06::C06, &c07::C07, &c08::C08, &c09::C09, &c11::C11, &c17::C17, &c18::C18, &c19::C19]
 }
 
 pub fn by_id(id: &str) -> Option<&'static dyn Family> {
@@ -22,12 +33,13 @@ pub fn crash_site(scn: &crate::scenario::Scenario) -> String {
         Body::Hid(_) => "hid".into(),
         Body::Ceremony(c) => {
             let mut kinds: Vec<&str> = Vec::new();
+            let twin = c.twin == crate::scenario::Twin::ViaTrait;
             for a in &c.actors {
                 for o in &a.ops {
                     kinds.push(match &o.kind {
-                        OpKind::GetAssertion(s) if s.via_trait => "get_assertion-via-trait",
-                        OpKind::MakeCredential(s) if s.via_trait => "make_credential-via-trait",
-                        OpKind::GetInfo { via_trait: true } => "get_info-via-trait",
+                        OpKind::GetAssertion(s) if s.via_trait || twin => "get_assertion-via-trait",
+                        OpKind::MakeCredential(s) if s.via_trait || twin => "make_credential-via-trait",
+                        OpKind::GetInfo { via_trait } if *via_trait || twin => "get_info-via-trait",
                         OpKind::GetAssertion(_) => "get_assertion",
                         OpKind::Authenticate(_) => "authenticate",
                         _ => "ceremony",
